@@ -3,6 +3,9 @@
 
 usage: tools_seed.py eval <seed-dir> <worktree> <prop> [<prop> ...]   -> prints a JSON summary
        tools_seed.py keep <seed-dir> <id> <json-summary-file>         -> copies into /verif/seeded/<id>/
+       tools_seed.py regress [-j N] [<id> ...]                        -> re-evaluates the kept seeds (all by default) in
+                                                                         scratch worktrees under /tmp that it creates and
+                                                                         removes; writes seeded/REGRESSION.json
 A seed dir holds patch.diff and demo.py.  The worktree must be a clean checkout of /repo's HEAD.
 """
 import json, os, shutil, subprocess, sys, tempfile
@@ -52,6 +55,8 @@ def main():
     if sys.argv[1] == 'eval':
         tier = os.environ.get('SEED_TIER', 'quick')
         print(json.dumps(evaluate(os.path.abspath(sys.argv[2]), os.path.abspath(sys.argv[3]), sys.argv[4:], tier), indent=1))
+    elif sys.argv[1] == 'regress':
+        regress(sys.argv[2:])
     elif sys.argv[1] == 'keep':
         seed, sid, summ = sys.argv[2], sys.argv[3], json.load(open(sys.argv[4]))
         dst = os.path.join(HERE, 'seeded', sid)
@@ -60,6 +65,70 @@ def main():
             if os.path.exists(os.path.join(seed, f)):
                 shutil.copy(os.path.join(seed, f), os.path.join(dst, f))
         json.dump(summ, open(os.path.join(dst, 'meta.json'), 'w'), indent=1)
+
+
+def regress(argv):
+    import concurrent.futures as cf
+    jobs = 3
+    if argv[:1] == ['-j']:
+        jobs, argv = int(argv[1]), argv[2:]
+    root = os.path.join(HERE, 'seeded')
+    ids = argv or sorted(d for d in os.listdir(root) if os.path.isfile(os.path.join(root, d, 'patch.diff')))
+    ben = os.path.join(root, 'benign')
+    if not argv and os.path.isdir(ben):
+        ids += ['benign/' + d for d in sorted(os.listdir(ben)) if os.path.isfile(os.path.join(ben, d, 'patch.diff'))]
+    base = tempfile.mkdtemp(prefix='vxreg')
+    wts = []
+    for k in range(jobs):
+        wt = os.path.join(base, 'wt%d' % k)
+        rc, out = sh(['git', '-C', '/repo', 'worktree', 'add', '--detach', wt, 'HEAD'])
+        if rc:
+            raise SystemExit('cannot create worktree: ' + out)
+        wts.append(wt)
+    import queue
+    free = queue.Queue()
+    for wt in wts:
+        free.put(wt)
+    results = {}
+
+    def one(sid):
+        wt = free.get()
+        try:
+            d = os.path.join(root, sid)
+            meta = json.load(open(os.path.join(d, 'meta.json')))
+            props = meta.get('checks_run') or [meta['property']]
+            r = evaluate(d, wt, props, os.environ.get('SEED_TIER', 'quick')) if os.path.exists(os.path.join(d, 'demo.py')) \
+                else evaluate_nodemo(d, wt, props)
+            return sid, meta, r
+        finally:
+            free.put(wt)
+    try:
+        with cf.ThreadPoolExecutor(jobs) as ex:
+            for sid, meta, r in ex.map(one, ids):
+                benign = sid.startswith('benign/')
+                exits = {p: c['exit'] for p, c in r.get('checks', {}).items()}
+                nviol = sum(c['n_violation_lines'] for c in r.get('checks', {}).values())
+                ok = (nviol == 0) if benign else (exits.get(meta.get('property')) == 1)
+                results[sid] = {'benign': benign, 'tests_rc': r.get('tests_rc'), 'exits': exits, 'violation_lines': nviol,
+                                'as_expected': ok, 'error': r.get('error')}
+                print('%-12s %s exits=%s violations=%d %s' % (sid, 'ok ' if ok else 'NOT-AS-EXPECTED', exits, nviol, r.get('error') or ''), flush=True)
+    finally:
+        for wt in wts:
+            sh(['git', '-C', '/repo', 'worktree', 'remove', '--force', wt])
+        sh(['git', '-C', '/repo', 'worktree', 'prune'])
+        shutil.rmtree(base, ignore_errors=True)
+    head = sh(['git', '-C', '/repo', 'rev-parse', 'HEAD'])[1].strip()
+    json.dump({'repo_head': head, 'results': results}, open(os.path.join(root, 'REGRESSION.json'), 'w'), indent=1, sort_keys=True)
+    bad = [k for k, v in results.items() if not v['as_expected']]
+    print('%d seeds, %d not as expected: %s' % (len(results), len(bad), bad))
+
+
+def evaluate_nodemo(seed, wt, props):
+    open(os.path.join(seed, 'demo.py'), 'w').write('')
+    try:
+        return evaluate(seed, wt, props)
+    finally:
+        os.remove(os.path.join(seed, 'demo.py'))
 
 
 if __name__ == '__main__':
